@@ -167,3 +167,41 @@ Lemma pick_worker_some : forall s t cands, cands <> [] -> pick_worker s t cands 
 Proof.
   intros s t [|c0 cands] H; [contradiction|]. unfold pick_worker. destruct (find _ _) as [[o w]|]; cbn; discriminate.
 Qed.
+
+(* ---- locality of the direct assignment ---------------------------------------------------------------------------------------------------------------- *)
+(* the worker a new task is handed to is parked at or below the nearest ancestor (of any of the task's invocations) that
+   has parked workers below it: the search goes up level by level and takes the first level with a hit *)
+Fixpoint anc_n (n : nat) (i : iref) : iref := match n with O => i | S m => anc_n m (parent_of i) end.
+
+Lemma descend_idle_below : forall f s h w, In w (descend_idle f s h) -> exists j, In w (v_isync (get_inv s j)) /\ In h (chain j).
+Proof.
+  induction f as [|f IH]; intros s h w Hin; cbn [descend_idle] in Hin; [destruct Hin|].
+  destruct (v_isync (get_inv s h)) as [|w0 tl] eqn:E.
+  - cbv zeta in Hin. apply in_flat_map in Hin. destruct Hin as [c [Hc Hin]].
+    assert (Hc' : In c (idle_sync_children s h)).
+    { destruct (minimal (ichildren_less s) (idle_sync_children s h)) eqn:Em; [exact Hc|]. rewrite <- Em in Hc. apply minimal_sound in Hc. exact (proj1 Hc). }
+    unfold idle_sync_children in Hc'. apply filter_In in Hc'. destruct Hc' as [Hc' _]. apply in_children in Hc'. destruct Hc' as [_ Hch].
+    destruct (IH _ _ _ Hin) as [j [A B]]. exists j. split; [exact A|]. eapply child_in_chain; eassumption.
+  - destruct Hin as [<-|[]]. exists h. rewrite E. split; [left; reflexivity|apply in_chain_self].
+Qed.
+
+Lemma map_parent_anc : forall n invs, map (anc_n n) (map parent_of invs) = map (anc_n (S n)) invs.
+Proof. intros n invs. rewrite map_map. reflexivity. Qed.
+
+Lemma direct_assign_closest : forall fuel s invs w, In w (schedule_candidates fuel s invs) ->
+  exists n h j, (n < fuel)%nat /\ In h (map (anc_n n) invs) /\ has_idle_sync s h = true /\
+    In w (v_isync (get_inv s j)) /\ In h (chain j) /\
+    forall m h', (m < n)%nat -> In h' (map (anc_n m) invs) -> has_idle_sync s h' = false.
+Proof.
+  induction fuel as [|f IH]; intros s invs w Hin; cbn [schedule_candidates] in Hin; [destruct Hin|]. cbv zeta in Hin.
+  destruct (filter (has_idle_sync s) invs) as [|h0 tl] eqn:Ehits.
+  - destruct (existsb is_root invs); [destruct Hin|]. destruct (IH _ _ _ Hin) as [n [h [j [Hn [Hh [Hi [Hw [Hc Hmin]]]]]]]].
+    exists (S n), h, j. split; [lia|]. split; [rewrite <- map_parent_anc; exact Hh|]. split; [exact Hi|]. split; [exact Hw|]. split; [exact Hc|].
+    intros m h' Hm Hh'. destruct m as [|m].
+    + cbn [anc_n] in Hh'. rewrite map_id in Hh'. destruct (has_idle_sync s h') eqn:E; [|reflexivity].
+      assert (Hf : In h' (filter (has_idle_sync s) invs)) by (apply filter_In; auto). rewrite Ehits in Hf. destruct Hf.
+    + rewrite <- map_parent_anc in Hh'. apply (Hmin m h'); [lia|exact Hh'].
+  - apply in_flat_map in Hin. destruct Hin as [h [Hh Hin]]. rewrite <- Ehits in Hh. apply filter_In in Hh. destruct Hh as [Hh Hi].
+    destruct (descend_idle_below _ _ _ _ Hin) as [j [Hw Hc]].
+    exists 0%nat, h, j. split; [lia|]. split; [cbn [anc_n]; rewrite map_id; exact Hh|]. split; [exact Hi|]. split; [exact Hw|]. split; [exact Hc|]. intros m h' Hm. lia.
+Qed.
